@@ -669,10 +669,13 @@ pub open spec fn strictly_increasing(s: Seq<u32>) -> bool { forall|i: int, j: in
 /// level k: receiver triple, staging file and sender all keyed by zooms[k]; the triple's writer and the staging
 /// file are the two halves of one file; the triple's receiver and the map's sender are the two ends of one channel
 /// whose capacity is `cap` and that is still empty
-pub open spec fn level_built(rc: (u32, Mailbox<ZMsg>, LevelFile), f: (u32, StageBuf<OutFile>), m: Map<u32, ZSender<ZMsg>>, size: u32, cap: int) -> bool {
+pub open spec fn level_built(rc: (u32, Mailbox<ZMsg>, LevelFile), f: (u32, StageBuf<OutFile>), m: Map<u32, ZSender<ZMsg>>, size: u32) -> bool {
     &&& rc.0 == size && f.0 == size && m.dom().contains(size)
     &&& f.1.cid() == rc.2.cid() && f.1.dest() is None
-    &&& m[size].cid() == rc.1.cid() && m[size].capacity() == cap && m[size].sent().len() == 0
+    &&& m[size].cid() == rc.1.cid()
+}
+pub open spec fn chan_fresh(m: Map<u32, ZSender<ZMsg>>, size: u32, cap: int) -> bool {
+    m.dom().contains(size) && m[size].capacity() == cap && m[size].sent().len() == 0
 }
 
 // Carve-out: from `let mut zoom_receivers = ..` to the closing brace of the construction loop.
@@ -680,7 +683,7 @@ pub open spec fn level_built(rc: (u32, Mailbox<ZMsg>, LevelFile), f: (u32, Stage
 //@extract fn bigtools/src/bbi/bbiwrite.rs write_zoom_vals
 //@presub /\A.*?\n(    let mut zoom_receivers = Vec::with_capacity\(zooms\.len\(\)\);.*?\n    \})\n\s*let first_zoom_data_offset.*\Z/ => fn build_levels(zooms: &Vec<u32>, options: &BBIWriteOptions, chrom_ids: &StrMap) -> (Vec<(u32, Mailbox<ZMsg>, LevelFile)>, Vec<(u32, StageBuf<OutFile>)>, SMap) {\n\1\n    (zoom_receivers, zoom_files, zooms_map)\n} min=1 count=1
 //@sub /BTreeMap<u32, ZoomSender<_, _>> = BTreeMap::new\(\)/ => SMap = SMap::new() min=1
-//@sub /for size in zooms\.iter\(\)\.copied\(\) \{/ => for j__ in 0..zooms.len() { let size = zooms[j__]; min=0
+//@sub /for size in zooms\.iter\(\)\.copied\(\) \{/ => let mut j__: usize = 0;\n    while j__ < zooms.len() {\n        let size = zooms[j__]; j__ = j__ + 1; min=0
 //@sub /TempFileBuffer::new\(/ => level_staging_new( min=0
 //@sub /futures_mpsc::channel\(/ => channel( min=0
 //@ret r
@@ -691,7 +694,7 @@ pub open spec fn level_built(rc: (u32, Mailbox<ZMsg>, LevelFile), f: (u32, Stage
     ensures
         [[L: build/one_receiver_triple_one_staging_file_and_one_sender_per_level_in_level_order_keyed_by_the_same_size]]
         r.0@.len() == zooms@.len() && r.1@.len() == zooms@.len(),
-        forall|k: int| 0 <= k < zooms@.len() ==> level_built(#[trigger] r.0@[k], r.1@[k], r.2@, zooms@[k], chrom_ids.count() as int),
+        forall|k: int| 0 <= k < zooms@.len() ==> level_built(#[trigger] r.0@[k], r.1@[k], r.2@, zooms@[k]),
         [[L: build/the_map_has_exactly_the_levels]]
         forall|x: u32| r.2@.dom().contains(x) <==> zooms@.contains(x),
         [[L: build/capacity_of_every_level_channel_is_the_number_of_chromosome_ids]]
@@ -699,10 +702,15 @@ pub open spec fn level_built(rc: (u32, Mailbox<ZMsg>, LevelFile), f: (u32, Stage
 //@loop 1
         invariant
             [[L: build/loop/levels_so_far_in_order]]
-            zoom_receivers@.len() == j__, zoom_files@.len() == j__,
-            forall|k: int| 0 <= k < j__ ==> level_built(#[trigger] zoom_receivers@[k], zoom_files@[k], zooms_map@, zooms@[k], chrom_ids.count() as int),
+            j__ <= zooms@.len(), zoom_receivers@.len() == j__, zoom_files@.len() == j__,
+            forall|k: int| 0 <= k < j__ ==> level_built(#[trigger] zoom_receivers@[k], zoom_files@[k], zooms_map@, zooms@[k]),
+            [[L: build/loop/capacity_of_every_level_channel_so_far_is_the_number_of_chromosome_ids]]
+            forall|k: int| 0 <= k < j__ ==> chan_fresh(zooms_map@, #[trigger] zooms@[k], chrom_ids.count() as int),
             [[L: build/loop/map_has_exactly_the_levels_so_far]]
             forall|x: u32| zooms_map@.dom().contains(x) <==> (exists|k: int| 0 <= k < j__ && zooms@[k] == x),
+        decreases
+            [[L: build/loop/termination]]
+            zooms@.len() - j__,
 //@at /^\s*\(zoom_receivers, zoom_files, zooms_map\)\s*$/ before
     proof {
         [[L: build/step/the_map_has_exactly_the_levels]]
@@ -712,7 +720,7 @@ pub open spec fn level_built(rc: (u32, Mailbox<ZMsg>, LevelFile), f: (u32, Stage
         [[L: build/step/capacity_of_every_level_channel_is_the_number_of_chromosome_ids]]
         assert forall|x: u32| zooms_map@.dom().contains(x) implies (#[trigger] zooms_map@[x]).capacity() == chrom_ids.count() as int && zooms_map@[x].sent().len() == 0 by {
             let k = choose|k: int| 0 <= k < zooms@.len() && zooms@[k] == x;
-            assert(level_built(zoom_receivers@[k], zoom_files@[k], zooms_map@, zooms@[k], chrom_ids.count() as int));
+            assert(chan_fresh(zooms_map@, zooms@[k], chrom_ids.count() as int));
         }
     }
 //@end
